@@ -252,7 +252,7 @@ pub fn boot(b: &Boot, cx: &mut Ctx) -> R<World> {
                         }
                         return Err(cx.foreign("unsound boot state accepted"));
                     }
-                    let w = World::new(real, model, false);
+                    let w = World::new(real, model, crate::gen::is_reachable_root(t));
                     w.sync_or(cx, &[owner], "denotation", &format!("boot via {}", route.name()))?;
                     Ok(w)
                 }
